@@ -472,7 +472,7 @@ def lean_obligations(ctx):
             return False, "the C source could not be translated (tools/c2lean.py failed): the refinement between source and model cannot be re-checked"
         rr = refine.check(ctx, locked=True)
         mine = [b for b in rr["broken"] if ctx.pid in b["owners"]]
-        ctx.cov["refinement"] = {"status": rr["status"], "build_s": rr.get("build_s"),
+        ctx.cov["refinement"] = {"status": rr["status"], "build_s": rr.get("build_s"), "theorems_audited": rr.get("theorems"),
                                  "broken_declarations": [{k: b[k] for k in ("file", "decl", "msg", "owners")} for b in rr["broken"]][:20],
                                  "broken_for_this_property": [b["decl"] for b in mine]}
         if mine:
